@@ -4,12 +4,19 @@ on overlapping string keys ("user-3", "k1") at different replicas — Write even
 increment / decrement / add / remove, reads with reply futures; LWW registers are written with explicit
 `HLCTimestamp`s (`get_or_create(key).set(value, ts)`, the CRDT's public API) — and, in a few configurations, also
 through the store's own Write event with the default operation "set"; a partition splits every group and heals,
-extra gossip ticks are kicked at the heal.  Observers expose every replica's final values (sorted)."""
+extra gossip ticks are kicked at the heal.  Observers expose every replica's final values (sorted).
+
+Widened configuration space: gossip intervals from a boundary palette (5 ms … longer than the run, 0 = disabled, values
+that lose a nanosecond in `Instant.from_seconds`, a different interval per CRDT type), the store's default
+`crdt_factory`, `LWWRegister(node_id, value, timestamp)` with initial contents, a replica without peers, a replica that
+starts gossiping in the middle of the run (`get_gossip_event()` at now > 0), zero-latency / always-lossy / never-lossy
+links, bursts of same-instant writes, heavy write load, large key spaces, operations the CRDT type does not offer,
+partition windows on lossy instants that may outlive the run, an occasional long run."""
 from __future__ import annotations
 
 import random
 
-from hv.scenarios.base import T, seed_all, stats_of, sub_seed
+from hv.scenarios.base import T, dur_ms, seed_all, stats_of, sub_seed
 
 NAME = "crdt"
 MODEL = "C18"
@@ -20,31 +27,80 @@ TYPES = ["gcounter", "pncounter", "orset", "lww"]
 
 
 def gen_cfg(rng):
-    end = rng.choice([2.0, 3.0, 4.0])
+    end = rng.choice([2.0, 3.0, 4.0]) if rng.random() > 0.1 else rng.choice([8.0, 10.0])
     end_ms = int(end * 1000)
-    types = [t for t in TYPES if rng.random() < 0.7] or [rng.choice(TYPES)]
-    a = rng.randint(300, end_ms - 1200)
-    return {
+    # prefer all four CRDT types side by side in one run; single-type scenarios still occur
+    r = rng.random()
+    if r < 0.55:
+        types = list(TYPES)
+    elif r < 0.75:
+        types = [rng.choice(TYPES)]
+    else:
+        types = [t for t in TYPES if rng.random() < 0.7] or [rng.choice(TYPES)]
+    a = dur_ms(rng, 100, end_ms - 600)
+    heavy = rng.random() < 0.2
+    many_keys = rng.random() < 0.15
+    gossip = dur_ms(rng, 5, 1500, zero=True) if rng.random() < 0.8 else dur_ms(rng, 1000, end_ms + 500)
+    cfg = {
         "end": end,
         "types": types,
-        "replicas": {t: rng.randint(2, 4) for t in types},
-        "gossip_ms": rng.choice([40, 100, 250]),
+        "replicas": {t: rng.choice([1, 2, 2, 3, 3, 4, 5]) for t in types},
+        "gossip_ms": gossip,
+        # a different interval for some types (the order gossip-interval / latency / partition length varies per group)
+        "gossip_by_type": {t: dur_ms(rng, 5, 1200)
+                           for t in types if rng.random() < 0.3},
         "gossip_off": rng.random() < 0.1,          # one replica per group never starts its own gossip
-        "link": rng.choice(["const", "exp", "exp-lossy", "datacenter", "jitter"]),
-        "lat_ms": rng.randint(1, 30),
-        "loss": rng.choice([0.05, 0.2]),
-        "keys": rng.randint(1, 5),
-        "elements": rng.randint(2, 6),
-        "writers": [{"rate": rng.choice([10, 20, 40, 80]), "poisson": rng.random() < 0.5,
-                     "read_frac": rng.choice([0.0, 0.2, 0.5]), "burst": rng.choice([1, 1, 2, 3])}
-                    for _ in range(rng.randint(3, 6))],
-        "part": [a, a + rng.randint(200, 900)] if rng.random() < 0.8 else None,
+        "late_gossip_ms": dur_ms(rng, 50, end_ms - 300) if rng.random() < 0.3 else None,   # replica 0 starts mid-run
+        "isolated": rng.random() < 0.15,           # the last replica of every group has no peers of its own
+        "link": rng.choice(["const", "exp", "exp-lossy", "datacenter", "jitter", "zero", "const-lossy"]),
+        "lat_ms": dur_ms(rng, 0.1, 30) if rng.random() < 0.7 else dur_ms(rng, 30, 600),
+        "loss": rng.choice([0.0, 0.05, 0.2, 0.5, 1.0]),
+        "keys": rng.randint(1, 5) if not many_keys else rng.choice([20, 40, 64]),
+        "elements": rng.randint(2, 6) if rng.random() < 0.8 else rng.choice([1, 30]),
+        "writers": [{"rate": rng.choice([10, 20, 40, 80]) if not heavy else rng.choice([150, 300, 600]),
+                     "poisson": rng.random() < 0.5,
+                     "read_frac": rng.choice([0.0, 0.2, 0.5, 1.0]),
+                     "burst": rng.choice([1, 1, 2, 3, 8, 25]) if not heavy else rng.choice([1, 2]),
+                     "bad_op": rng.random() < 0.08}
+                    for _ in range(rng.randint(3, 6) if not heavy else rng.randint(1, 3))],
+        "part": [a, dur_ms(rng, a + 1, min(a + 1500, end_ms + 400))] if rng.random() < 0.8 else None,
         "asym": rng.random() < 0.25,
         "kick": rng.randint(0, 2),
-        "skew_ms": [rng.choice([0, 0, 5, -5, 50]) for _ in range(4)],   # LWW writers' clock skew per replica
-        "lww_via_write_event": rng.random() < 0.1,
-        "quiet_ms": rng.choice([300, 600, 1000]),  # writers stop this long before the end (convergence time)
+        "skew_ms": [rng.choice([0, 0, 5, -5, 50]) for _ in range(5)],   # LWW writers' clock skew per replica
+        "lww_via_write_event": rng.random() < 0.04,
+        "lww_factory": rng.choice(["plain", "plain", "default", "initial"]),
+        "quiet_ms": dur_ms(rng, 100, 1200),       # writers stop this long before the end (convergence time)
     }
+    return _fit(cfg)
+
+
+def _fit(cfg):
+    """run-time budget (C03 runs every scenario in 6 environments): bound the number of write/read operations and the
+    number of full-state gossip exchanges; the *shape* of the configuration (orders of durations, regimes) is kept"""
+    end = cfg["end"]
+    ws = cfg["writers"]
+
+    def ops():
+        return sum(w["rate"] * w["burst"] for w in ws) * max(0.2, end - cfg["quiet_ms"] / 1000.0)
+
+    budget = 2500 if end <= 5 else 1800
+    while ops() > budget:
+        w = max(ws, key=lambda w: w["rate"] * w["burst"])
+        if w["burst"] > 1:
+            w["burst"] = max(1, w["burst"] // 2)
+        elif w["rate"] > 10:
+            w["rate"] = max(10, w["rate"] // 2)
+        else:
+            break
+    n_rep = sum(cfg["replicas"].values())
+
+    def floor_iv(iv):
+        # at most ~1200 gossip rounds per run, fewer when the gossiped state is large
+        lo = end * 1000.0 * n_rep / (1200 if cfg["keys"] <= 5 and ops() <= 1200 else 400)
+        return iv if (iv == 0 or iv >= lo) else int(lo) + 1
+    cfg["gossip_ms"] = floor_iv(cfg["gossip_ms"])
+    cfg["gossip_by_type"] = {t: floor_iv(v) for t, v in cfg["gossip_by_type"].items()}
+    return cfg
 
 
 def build(cfg, seed):
@@ -74,18 +130,34 @@ def build(cfg, seed):
             return NetworkLink(name=name, latency=ExponentialLatency(lat))
         if k == "jitter":
             return NetworkLink(name=name, latency=ConstantLatency(lat), jitter=ExponentialLatency(lat / 2))
+        if k == "zero":
+            return NetworkLink(name=name, latency=ConstantLatency(0.0))
+        if k == "const-lossy":
+            return NetworkLink(name=name, latency=ConstantLatency(lat), packet_loss_rate=cfg["loss"])
         return NetworkLink(name=name, latency=ExponentialLatency(lat), packet_loss_rate=cfg["loss"])
 
     def at_s(ms):
         return Instant.from_seconds(ms / 1000.0)
 
+    lww_factory = cfg.get("lww_factory", "plain")
     factories = {"gcounter": lambda nid: GCounter(nid), "pncounter": lambda nid: PNCounter(nid),
                  "orset": lambda nid: ORSet(nid), "lww": lambda nid: LWWRegister(nid)}
+    if lww_factory == "initial":
+        # registers are born with contents: every replica's initial value carries its own node id in the timestamp
+        factories["lww"] = lambda nid: LWWRegister(nid, value="init:" + nid, timestamp=HLCTimestamp(0, 0, nid))
     groups = {}
     for t in cfg["types"]:
-        reps = [CRDTStore(f"{t}-{'abcd'[i]}", network=net, crdt_factory=factories[t],
-                          gossip_interval=cfg["gossip_ms"] / 1000.0) for i in range(cfg["replicas"][t])]
-        for r in reps:
+        g_iv = cfg.get("gossip_by_type", {}).get(t, cfg["gossip_ms"]) / 1000.0
+        if t == "lww" and lww_factory == "default":
+            reps = [CRDTStore(f"{t}-{'abcde'[i]}", network=net, gossip_interval=g_iv)     # the default crdt_factory
+                    for i in range(cfg["replicas"][t])]
+        else:
+            reps = [CRDTStore(f"{t}-{'abcde'[i]}", network=net, crdt_factory=factories[t], gossip_interval=g_iv)
+                    for i in range(cfg["replicas"][t])]
+        for i, r in enumerate(reps):
+            if cfg.get("isolated") and len(reps) > 1 and i == len(reps) - 1:
+                r.add_peers([])       # knows nobody: receives pushes, cannot answer them, never gossips itself
+                continue
             r.add_peers([x for x in reps if x is not r])
         for i, a in enumerate(reps):
             for b in reps[i + 1:]:
@@ -98,7 +170,7 @@ def build(cfg, seed):
             super().__init__(f"writer-{i}")
             self.i, self.wc = i, wc
             self.rng = random.Random(sub_seed(seed, "writer", i))
-            self.n = self.writes = self.reads = self.replies = 0
+            self.n = self.writes = self.reads = self.replies = self.bad = 0
             self.logical = 0
             self.seen = []
 
@@ -117,7 +189,14 @@ def build(cfg, seed):
                 return ev, fut, (rep.name, key)
             self.writes += 1
             md = {"key": key}
-            if t == "gcounter":
+            if self.wc.get("bad_op") and self.rng.random() < 0.2:
+                # an operation this CRDT type does not offer (the store logs a warning and ignores it) / a default amount
+                self.bad += 1
+                if t in ("gcounter", "pncounter") and self.rng.random() < 0.5:
+                    md.update(operation="increment")              # value None: the method's default argument
+                else:
+                    md.update(operation="no_such_operation", value=1)
+            elif t == "gcounter":
                 md.update(operation="increment", value=self.rng.randint(1, 5))
             elif t == "pncounter":
                 md.update(operation=self.rng.choice(["increment", "decrement"]), value=self.rng.randint(1, 5))
@@ -164,9 +243,17 @@ def build(cfg, seed):
                           stop_after=stop))
 
     sim = Simulation(end_time=T(end), sources=sources, entities=[net, *stores, *writers])
+    late = cfg.get("late_gossip_ms")
     for t in cfg["types"]:
         for i, r in enumerate(groups[t]):
             if cfg["gossip_off"] and i == 0:
+                continue
+            if late is not None and i == (1 if cfg["gossip_off"] else 0):
+                # this replica starts gossiping during the run: `get_gossip_event()` at now > 0 stamps the tick "now"
+                def start_late(e, r=r):
+                    g = r.get_gossip_event()
+                    return [g] if g is not None else []
+                sim.schedule(Event.once(time=at_s(late), event_type="LateGossipStart", fn=start_late, daemon=True))
                 continue
             ev = r.get_gossip_event()
             if ev is not None:
@@ -230,5 +317,6 @@ def build(cfg, seed):
                     and value_of(r.crdts[k]) == value_of(groups[t][0].crdts[k]) for r in groups[t])]
             for k in sorted(dict.fromkeys(k for r in groups[t] for k in r.crdts))])
     for w in writers:
-        obs[w.name] = (lambda w=w: {"n": w.n, "w": w.writes, "r": w.reads, "replies": w.replies, "seen": w.seen})
+        obs[w.name] = (lambda w=w: {"n": w.n, "w": w.writes, "r": w.reads, "replies": w.replies, "bad": w.bad,
+                                    "seen": w.seen})
     return sim, obs
